@@ -41,6 +41,16 @@ claimed = {
    note="Trusted: the reference tree; file-system loaders are queried only with clean absolute paths; the OS loader runs on the real disk (no fault injection); embed.FS is static.",
    tech="deterministic simulation: seeded edit/query histories, simulated http.FileSystem with fault injection, reference-tree oracle, exhaustive embedfs sweep, tape shrinking + replay",
    ref="DESIGN.md §6 C19"),
+ "C11": dict(engine="schedsim", cat="exploration",
+   text="2-4 simulated clients are real goroutines of which exactly one runs at a time; the next one is chosen from the seed at every yield point (jet's verifYield hook before each lock / shared-container access, every entry into the Loader, Cache and Writer seams), under a uniform-with-stay-bias or a PCT strategy. Each client issues 2-12 operations on one Set: GetTemplate/Parse/Execute of generated templates (first-time loads of shared extends/import/include targets, field-cache population reset per run, slow-path promoted fields), AddGlobal/LookupGlobal/{{g}} with unique values, Set/Delete/Exists/Open on the in-memory loader, edits of volatile templates, dump(); simulated pools hand Runtimes and rangers across clients. Oracles: (1) the same seeds run in a -race worker whose baton is invisible to the race detector, so an access pair not ordered by jet's own synchronisation is reported deterministically by schedule; (2) every Execute of a stable template equals its alone-run; (3) globals are a linearizable register per key and the in-memory loader a linearizable map (porcupine, event sequence numbers); (4) volatile templates render only versions somebody had written; (5) all clients finish (watchdog, step bound).",
+   note="Trusted: the Go race detector for oracle (1) - sound for the executions it sees; whether it still holds the earlier access is not schedule-determined, so race findings are re-tried up to 6 times before being reported and a finding that never reproduces is exit 2. Not demanded: pointer-identity of concurrent GetTemplate results, linearizability of loads against loader edits.",
+   tech="deterministic simulation: seeded scheduler over real goroutines (stealth baton, PCT), simulated object pools, race detector under a serialised schedule, porcupine linearizability check, alone-run differential oracle, cross-process tape shrinking + replay",
+   ref="DESIGN.md §6 C11"),
+ "C02": dict(engine="parsesim", cat="exploration",
+   text="Seeded mutation sequences (truncate at any byte offset, delete/duplicate/swap chunks, splice ~120 lexer-relevant fragments inside actions, byte replacement, and 9 ground-truth structural mistakes) over generated template worlds under 7 delimiter configurations, with loader fault plans for the files reached through extends/import. Every Set.Parse / Set.GetTemplate call runs in its own testing/synctest bubble inside an isolated worker process: a panic in the lexer's background goroutine kills the worker (observed and replayed across processes by the driver), a lexer goroutine still blocked after the call makes the bubble deadlock (goroutine-leak oracle, also when the failure was an injected loader error in a referenced template), a per-run watchdog catches hangs. Also judged: (template, nil) or (_, error); syntax errors name a file of the set and a line inside it; ground-truth mistakes (unterminated action/comment/string, missing or surplus end, extends/import after content, unclosed parenthesis, overlapping comment markers) are rejected.",
+   note="Honest note: which strings are tried is input generation; the simulator contributes the only sound way to observe three of the four observables (background panic, goroutine left running, hang) and the loader-fault dimension. Sources are capped at 4 KiB.",
+   tech="deterministic simulation: seeded mutation + loader fault sequences, worker-process crash boundary, synctest bubble as goroutine-leak oracle, watchdog, cross-process tape shrinking + replay",
+   ref="DESIGN.md §6 C02"),
 }
 
 not_applicable = {
@@ -56,7 +66,7 @@ not_applicable = {
  "C18": "single-threaded, fault-free API-vs-syntax equivalence: stateful input generation, not simulation (DESIGN.md §7)",
  "C20": "pure function of the AST (DESIGN.md §7)",
 }
-pending = {k: 'claimed in DESIGN.md §2; its check is still under construction, so nothing is asserted yet' for k in ['C02','C11']}  # id -> reason, for claimed-in-design properties whose check is not built yet
+pending = {k: 'claimed in DESIGN.md §2; its check is still under construction, so nothing is asserted yet' for k in []}  # id -> reason, for claimed-in-design properties whose check is not built yet
 
 m = {
  "version": 1,
